@@ -312,6 +312,14 @@ def cases_start(tier):
                         continue
                     yield "%s/K%d/mask=%s/cache-left-by-the-previous-run=%s" % (method, K, mask, "".join("1" if c else "0" for c in cached)), {
                         "method": method, "K": K, "mask": mask, "cached": list(cached)}
+                    if cached[0]:
+                        # ... a previous run that did not return: it was ended by an exception (an abort of the driver, a failing evaluator)
+                        yield "%s/K%d/mask=%s/cache-left-by-the-previous-run=%s/which-ended-by-an-exception" % (method, K, mask, "".join("1" if c else "0" for c in cached)), {
+                            "method": method, "K": K, "mask": mask, "cached": list(cached), "first_run_raises": True}
+
+
+class EndOfRun(Exception):
+    """What ends the earlier run of the base-case scenario when it does not return (stands for an abort raised through the back-end)."""
 
 
 def scn_start(T, case):
@@ -338,6 +346,8 @@ def scn_start(T, case):
                     cons[0]["fun"](kw["x0"])
             if has_cg and kind == "minimize" and kw.get("jac") not in (None, False):
                 kw["jac"](kw["x0"])
+            if case.get("first_run_raises"):
+                raise EndOfRun
             return
         handed.update(kw)
         handed["kind"] = kind
@@ -382,7 +392,10 @@ def scn_start(T, case):
         free = [i for i in range(Nv) if case["mask"] is None or case["mask"][i]]
         x0free = T.np.array([x0[i] for i in free])
         if has_cv:
-            opt.start(x0)
+            try:
+                opt.start(x0)
+            except EndOfRun:
+                pass
         env["run"] = 1
         # the new run starts where the free variables are the same; a fixed variable (if any) has another value: another ensemble
         initial = x0 if case["mask"] is None else T.np.array([x0[i] if i in free else T.real("fixed_value_of_this_run", ()) for i in range(Nv)])
